@@ -6,6 +6,11 @@ V = os.path.dirname(os.path.dirname(os.path.abspath(__file__)))
 ALL = ["C%02d" % i for i in range(1, 19)]
 
 CHECKS = {
+ "C09": dict(
+   technique="Coq refinement proofs (MemDisk and FileDisk models refine a register-array spec, by simulation over all histories) + per-run vm_compute obligations on regenerated source bodies + extracted-model differential run with the spec as oracle",
+   text="Theorems for every block size, disk size and history: a read returns the last accepted write (zeros otherwise), writes touch one register, Size is constant, refusals are exactly out-of-range/wrong-size and change nothing; the MemDisk model (list of blocks, Go copy semantics) and the FileDisk model (flat byte file, pread/pwrite at a*bs with the uint64 wrap written in) both refine that spec, hence agree. Tied to the code by regenerated function bodies/consts/types of machine/disk and machine/async_disk (kernel-checked Examples) and by running generated histories with client-side buffer aliasing on MemDisk, FileDisk, the async_disk aliases and the global wrappers against the extracted models.",
+   note="Trusts Coq kernel, extraction, srcextract, the OCaml/Go drivers, the kernel's pread/pwrite on tmpfs. Aliasing ('never retains caller memory') is observable only on the Go side and is carried by the differential run, not by a theorem. ReadTo with a non-block-sized buffer is outside the property's quantifier (MemDisk copies a prefix, FileDisk panics; both mirrored).",
+   ref="DESIGN.md §5 C09"),
  "C15": dict(
    technique="Coq proof (generic little-endian put/get theorems by induction + lia) + per-run vm_compute obligations on regenerated function bodies + extracted-model differential run",
    text="Unbounded theorems in Coq about a model of encoding/binary's store/load sequences: frame, byte layout, Get∘Put, Put∘Get, refusal of short buffers, for every width, value and buffer. The model is tied to the code on every run by (R) regenerated function bodies of machine/prims.go checked by kernel-evaluated Examples and (C) a differential run of the real functions against the extracted model.",
